@@ -124,12 +124,118 @@ def genEntry (bnd : Bnd) (e : Entry) (n : Nat) (s : UInt64) (out : Array String)
     | some l => (acc.1.push l, s)
     | none => (acc.1, s)) (out, s)
 
+/-! ### stage 2: functions with array arguments (`cfun2 f=<name> a0=<v> a1=<v> … d=<0|1>`)
+
+Arrays: lengths around every stripe / word / varint boundary (0..12, 15..17, 31..33, 63..65, …), contents random, all
+zero, all ones, "continuation bytes" (high bit set, for the varint readers), small values.  Integer arguments whose name
+says they are a length (`len`, `length`, `size`, `count`, `n`) are mostly the exact length of an array argument,
+sometimes one less / one more / far off (the generated `_defined` then decides whether the call is executed at all);
+`(p, end)` pairs likewise.  Arrays of a fixed length (global tables) get that length. -/
+
+open Carquet.Impl.CSem (Val Kind)
+open Carquet.Gen.CFun (Entry2 table2)
+
+def lengths : Array Nat :=
+  #[0, 1, 2, 3, 4, 5, 6, 7, 8, 9, 10, 11, 12, 13, 15, 16, 17, 20, 23, 24, 25, 31, 32, 33, 34, 39, 40, 41, 47, 48, 63, 64, 65, 71, 72,
+    95, 96, 97, 100, 127, 128, 129, 200, 255, 256, 257]
+
+def drawLen (thorough : Bool) (s : UInt64) : Nat × UInt64 :=
+  let (k, s) := below s 100
+  if k < 40 then below s 14
+  else if k < 90 then
+    let (i, s) := below s lengths.size
+    (lengths.getD i 0, s)
+  else below s (if thorough then 1500 else 320)
+
+def drawElems (w : Nat) (n : Nat) (s : UInt64) : List Nat × UInt64 :=
+  let (mode, s) := below s 8
+  let m := 2 ^ w
+  (List.range n).foldl (fun (acc : List Nat × UInt64) _ =>
+    let (r, s) := next acc.2
+    let v := if mode ≤ 2 then r.toNat % m
+             else if mode = 3 then 0
+             else if mode = 4 then m - 1
+             else if mode = 5 then (if r.toNat % 4 = 0 then r.toNat / 8 % (m / 2) else m / 2 + r.toNat / 8 % (m / 2))   -- high bit mostly set
+             else if mode = 6 then r.toNat % 4
+             else (if r.toNat % 3 = 0 then m - 1 else r.toNat / 8 % m)
+    (acc.1 ++ [v], s)) ([], s)
+
+def isLenName (nm : String) : Bool :=
+  ["len", "length", "size", "count", "n", "a_len", "b_len", "num_blocks"].contains nm
+
+def showVal (k : Kind) (v : Val) : String :=
+  match k, v with
+  | .arr 8, .a xs => Carquet.Util.toHex (xs.map UInt8.ofNat)
+  | _, .a xs => Carquet.Util.showList toString xs
+  | _, .n x => toString x
+
+def drawArgs2 (bnd : Bnd) (thorough : Bool) (e : Entry2) (s : UInt64) : List Val × UInt64 :=
+  -- arrays first (their lengths steer the integer arguments), then the rest in order
+  let (arrs, s) := e.args.foldl (fun (acc : List (String × List Nat) × UInt64) a =>
+    match a.2 with
+    | .arr w =>
+      let (n, s) := match e.fixed.find? (·.1 == a.1) with
+        | some (_, n) => (n, acc.2)
+        | none => drawLen thorough acc.2
+      let (xs, s) := drawElems w n s
+      (acc.1 ++ [(a.1, xs)], s)
+    | _ => acc) ([], s)
+  let lens := (arrs.filter (fun a => (e.fixed.find? (·.1 == a.1)).isNone)).map (·.2.length)
+  let (sm, s) := below s 3          -- every third tuple: all the other integers small (relations between them are hit densely)
+  e.args.foldl (fun (acc : List Val × UInt64) a =>
+    match a.2 with
+    | .arr _ => (acc.1 ++ [Val.a (((arrs.find? (·.1 == a.1)).map (·.2)).getD [])], acc.2)
+    | .off base =>
+      let L := (((arrs.find? (·.1 == base)).map (·.2.length)).getD 0)
+      let (k, s) := below acc.2 100
+      let (r, s) := below s (L + 1)
+      (acc.1 ++ [Val.n (if k < 70 then L else if k < 80 then L - 1 else if k < 90 then L + 1 else r)], s)
+    | .int w _ =>
+      let (k, s) := below acc.2 100
+      let lenBias := if isLenName a.1 then 80 else 12
+      if k < lenBias && !lens.isEmpty then
+        let (i, s) := below s lens.length
+        let L := lens.getD i 0
+        let (m, s) := below s 20
+        let v := if m < 13 then L else if m < 15 then L - 1 else if m < 17 then L + 1 else if m = 17 then L + 8 else if m = 18 then L / 2 else 0
+        (acc.1 ++ [Val.n (clampW w v)], s)
+      else if sm = 0 && !isLenName a.1 then
+        let (v, s) := below s 7
+        (acc.1 ++ [Val.n (clampW w v)], s)
+      else if k < lenBias + 30 && !isLenName a.1 then
+        -- small values: table indices, bit widths, shift counts
+        let (v, s) := below s 41
+        let (m, s) := below s 12
+        (acc.1 ++ [Val.n (clampW w (if m = 0 then 2 ^ 64 - 1 else if m < 6 then v % 9 else v))], s)
+      else
+        let earlier := (acc.1.filterMap (fun v => match v with | .n x => some x | _ => none)).toArray
+        let (v, s) := drawArg bnd w earlier s
+        (acc.1 ++ [Val.n v], s)) ([], s)
+
+def lineOf2 (e : Entry2) (a : List Val) : Option String :=
+  match e.eval a with
+  | some (_, d) =>
+    let parts := (e.args.zip a).zipIdx.map (fun p => s!"a{p.2}={showVal p.1.1.2 p.1.2}")
+    some s!"cfun2 f={e.name} {" ".intercalate parts} d={if d then 1 else 0}"
+  | none => none
+
+def genEntry2 (bnd : Bnd) (thorough : Bool) (e : Entry2) (budget : Nat) (s : UInt64) (out : Array String) : Array String × UInt64 :=
+  let cost := 1 + (e.fixed.foldl (fun acc f => acc + f.2) 0) / 48
+  let n := max 8 (budget / cost)
+  (List.range n).foldl (fun (acc : Array String × UInt64) _ =>
+    let (a, s) := drawArgs2 bnd thorough e acc.2
+    match lineOf2 e a with
+    | some l => (acc.1.push l, s)
+    | none => (acc.1, s)) (out, s)
+
 def gen (seed : Nat) (thorough : Bool) : List String :=
   let n := if thorough then 6000 else 500
   let bnd := Bnd.mk'
   let s0 : UInt64 := UInt64.ofNat (seed * 2654435761 + 12345)
-  let (ls, _) := table.foldl (fun (acc : Array String × UInt64) e =>
+  let (ls, s1) := table.foldl (fun (acc : Array String × UInt64) e =>
     genEntry bnd e n acc.2 (acc.1.push s!"#fn {e.name} {e.file} {e.cname}")) (#[], s0)
+  let (ls, _) := table2.foldl (fun (acc : Array String × UInt64) e =>
+    genEntry2 bnd thorough e (if thorough then 3000 else 300) acc.2 (acc.1.push s!"#fn {e.name} {e.file} {e.cname}")) (ls, s1)
   ls.toList
 
 end Driver.Gen.CFun
